@@ -9,7 +9,7 @@ import warnings
 
 import numpy as np
 
-from .. import coqrun
+from .. import coqrun, retry
 from ..core import Corr
 from ..coqrun import cz, clist, copt, cbool, cstr
 from ..translate import keeplists
@@ -80,6 +80,13 @@ def translate(ctx):
 # implementation runners
 
 _FIX = {}
+_S = lambda L, sph=True: {"am": [L], "sph": sph, "nexp": 1, "coef": [1]}
+# the five plain basis sets the wavefunction cases use (as cases of the basis stream), by function count
+FIXTURE_BASIS = {1: {"centers": [["fx1", [_S(0)]]], "atom_map": ["fx1"], "nbf": 1},
+                 2: {"centers": [["fx2", [_S(0)]]], "atom_map": ["fx2", "fx2"], "nbf": 2},
+                 3: {"centers": [["fx3", [_S(1)]]], "atom_map": ["fx3"], "nbf": 3},
+                 4: {"centers": [["fx4", [_S(0), _S(1)]]], "atom_map": ["fx4"], "nbf": 4},
+                 6: {"centers": [["fx6", [_S(2, False)]]], "atom_map": ["fx6"], "nbf": 6}}
 
 
 def fixtures():
@@ -87,16 +94,12 @@ def fixtures():
         return _FIX
     from qcelemental.models import BasisSet, Molecule
     warnings.filterwarnings("ignore", category=DeprecationWarning)
-    _FIX["mol"] = Molecule(symbols=["He", "He"], geometry=[0, 0, 0, 0, 0, 3])
-    sh = lambda L, sph=True: {"harmonic_type": "spherical" if sph else "cartesian", "angular_momentum": [L],
-                              "exponents": [1.0], "coefficients": [[1.0]]}
+    mol = Molecule(symbols=["He", "He"], geometry=[0, 0, 0, 0, 0, 3])
     pool = {}
-    for nbf, shells, amap in [(1, [sh(0)], ["c"]), (2, [sh(0)], ["c", "c"]), (3, [sh(1)], ["c"]), (4, [sh(0), sh(1)], ["c"]),
-                              (6, [sh(2, False)], ["c"])]:
-        b = BasisSet(name=f"b{nbf}", center_data={"c": {"electron_shells": shells}}, atom_map=amap)
-        assert b.nbf == nbf
-        pool[nbf] = b
-    _FIX["basis"] = pool
+    for nbf, case in FIXTURE_BASIS.items():
+        # (the stored count is judged by the basis streams, not here; distinct names and center keys per fixture)
+        pool[nbf] = BasisSet(**dict(basis_kwargs(case), name=f"b{nbf}"))
+    _FIX.update(mol=mol, basis=pool)
     return _FIX
 
 
@@ -1035,9 +1038,65 @@ def gen_cases(ctx):
 # ---------------------------------------------------------------------------------------------------------
 
 def judge(stream, case):
+    if stream == "history":
+        bad = run_history(case)
+        return ["History", len(case)], [(w, None) for w in bad]
     out, obj = RUN[stream](case)
     bad = ORACLE[stream](case, out, obj)
     return out, bad
+
+
+# ---- history stream: calls that share whatever a too coarse cache would be keyed on (protocol, driver, field name, natom, basis /
+# center name, trajectory policy) but differ in the payload, run back to back in one interpreter (see harness/histseq.py)
+
+def gen_history(rng, n):
+    steps = []
+    while len(steps) < n:
+        fam = rng.choice(["atomic", "atomic", "wfnprops", "props", "basis", "traj"])
+        run = rng.randint(2, 4)
+        if fam == "atomic":
+            k = rng.randrange(6 * 3 * 4 * 4)
+            for _ in range(run):                       # same protocols and driver, different payloads / restricted flag / sizes
+                c = gen_atomic(rng, k, weird=0.0)
+                if rng.random() < 0.3:
+                    c["wfn"] = None
+                steps.append({"stream": "atomic", "case": c})
+        elif fam == "wfnprops":
+            for _ in range(run):                       # basis sets b1..b6 alternate; the same field names with other sizes
+                steps.append({"stream": "wfnprops", "case": {"wfn": gen_wfn(rng, weird=0.0)}})
+        elif fam == "props":
+            names = rng.sample(sorted(PROP_ARRAYS), rng.randint(1, 3))
+            for natom in rng.sample([1, 2, 3, 4], run):    # the same fields under another atom count
+                fields = []
+                for ident, kname in enumerate(names, 1):
+                    fit = prop_shape(PROP_ARRAYS[kname], natom)
+                    fields.append([kname, gen_array(rng, ident, int(np.prod(fit)), fit, wrong_p=0.0)])
+                steps.append({"stream": "props", "case": {"natom": natom, "fields": fields}})
+        elif fam == "basis":
+            key = rng.choice(["c1", "o_sto3g"])
+            for _ in range(run):                       # the same center key (and basis name) with other shells
+                ns = rng.randint(1, 3)
+                shells = [{"am": [rng.randint(0, 4)], "sph": rng.random() < 0.5, "nexp": 1, "coef": [1]} for _ in range(ns)]
+                amap = [key] * rng.randint(1, 3)
+                count = sum(nfunc(sh) for sh in shells) * len(amap)
+                steps.append({"stream": "basis", "case": {"centers": [[key, shells]], "atom_map": amap,
+                                                          "nbf": rng.choice([None, count, count])}})
+        else:
+            ids = [rng.randint(0, 5) for _ in range(rng.randint(0, 5))]
+            for pol in rng.sample(TRAJ, min(run, 4)):      # the same evaluations under another policy, then a shorter trajectory
+                steps.append({"stream": "traj", "case": {"policy": pol, "ids": ids}})
+                if rng.random() < 0.5:
+                    steps.append({"stream": "traj", "case": {"policy": pol, "ids": ids[:rng.randint(0, len(ids))]}})
+    return steps[:n]
+
+
+def run_history(steps):
+    """run the steps in order; the oracle's complaints (outside the known findings) about the LAST one"""
+    warnings.filterwarnings("ignore", category=DeprecationWarning)
+    bad = []
+    for st in steps:
+        out, bad = judge(st["stream"], st["case"])
+    return [f"{w} [observed {out}]" for w, t in bad if t is None]
 
 
 def smaller(stream, case):
@@ -1115,13 +1174,52 @@ def shrink_failure(f, budget=400):
     return dict(f, case={"stream": stream, "input": best}, observed=best_out, what=best_what, shrunk=(best != case))
 
 
+def history_failures(rng, n, corr=None):
+    """run a history stream in this interpreter; every failing step (at most 3) becomes a failure whose case is the shortest
+    history that reproduces it in a fresh interpreter"""
+    from .. import histseq
+    try:
+        fixtures()
+    except Exception:
+        # a fixture basis set was refused: report it as what it is, a failing case of the basis stream
+        out_f = []
+        for case in FIXTURE_BASIS.values():
+            out, bad = judge("basis", case)
+            out_f.extend({"stream": "oracle-basis", "case": {"stream": "basis", "input": case}, "what": w, "observed": out, "tag": t}
+                         for w, t in bad)
+        return out_f
+    hsteps = gen_history(rng, n)
+    out_f = []
+    for j, st in enumerate(hsteps):
+        try:
+            out, bad = judge(st["stream"], st["case"])
+        except Exception as e:
+            if corr is not None:
+                corr.errors.append(f"harness error on history step {st}: {type(e).__name__}: {e}")
+            continue
+        if corr is not None:
+            corr.count("history")
+            corr.hit("history_" + st["stream"])
+        bad = [(w, t) for w, t in bad if t is None]
+        if bad and len(out_f) < 3:
+            hist, complaints, reproduced = histseq.minimal_history("c20", hsteps[:j + 1])
+            what = (f"after {len(hist) - 1} earlier call(s) in the same interpreter: " if len(hist) > 1 else "") + bad[0][0]
+            if not reproduced and corr is not None:
+                corr.notes.append("a history-stream failure did not reproduce in a fresh interpreter with the whole history")
+            out_f.append({"stream": "oracle-history", "case": {"stream": "history", "input": hist}, "what": what,
+                          "observed": out, "tag": None, "shrunk": reproduced})
+    return out_f
+
+
 def correspond(ctx):
     warnings.filterwarnings("ignore", category=DeprecationWarning)
     corr = Corr()
     corr.rule = ("full product of 6 wavefunction-protocol settings (5 + default) x 3 stdout x 4 native-file x 4 drivers with random "
                  "wavefunction payloads/pointers and flat/shaped/list/wrong-sized arrays; WavefunctionProperties and "
                  "AtomicResultProperties directly; trajectories of length 0..7 under every policy; random basis sets (fused and "
-                 "general contractions, nbf right/wrong/absent). Non-trivial = the implementation accepted the input (an object "
+                 "general contractions, nbf right/wrong/absent); a history stream (runs of calls sharing protocol / driver / field "
+                 "names / natom / center key / policy but not the payload, in one interpreter, failing histories minimised in fresh "
+                 "interpreters). Non-trivial = the implementation accepted the input (an object "
                  "was built and re-validated); distinct = distinct inputs")
     terms, bterms, meta, bmeta = [], [], [], []
     ntag = {}
@@ -1132,7 +1230,7 @@ def correspond(ctx):
         nonlocal terms, bterms, meta, bmeta
         if terms:
             try:
-                bad, errors = coqrun.eval_bad_indices("C20", REQ, "", "check_case", terms, shard=250, ty="c20case")
+                bad, errors = retry.eval_bad_indices("C20", REQ, "", "check_case", terms, shard=250, ty="c20case", log=ctx.log)
             except Exception:               # keep the oracle verdicts collected so far
                 import traceback
                 bad, errors = [], [(0, "model evaluation crashed: " + traceback.format_exc()[-1500:])]
@@ -1145,7 +1243,7 @@ def correspond(ctx):
                 corr.disagreements.append({"stream": stream, "case": {"stream": stream, "input": case}, "impl": out, "model": got})
         if bterms:
             try:
-                bad2, errors2 = coqrun.eval_bad_indices("C20b", REQ, "", "check_basis", bterms, shard=600, ty="basis_in * outcome Z")
+                bad2, errors2 = retry.eval_bad_indices("C20b", REQ, "", "check_basis", bterms, shard=600, ty="basis_in * outcome Z", log=ctx.log)
             except Exception:
                 import traceback
                 bad2, errors2 = [], [(0, "model evaluation crashed: " + traceback.format_exc()[-1500:])]
@@ -1156,6 +1254,11 @@ def correspond(ctx):
                 corr.disagreements.append({"stream": stream, "case": {"stream": stream, "input": case}, "impl": out, "model": got})
         terms, bterms, meta, bmeta = [], [], [], []
 
+    # history stream first (so that the recorded history is everything this interpreter did to the result models before)
+    from .. import histseq
+    hfails = history_failures(ctx.rng, 1500 if ctx.thorough else 300, corr)
+    nfail = len(hfails)
+    corr.failures.extend(hfails)
     for stream, case in gen_cases(ctx):
         try:
             out, bad = judge(stream, case)
@@ -1167,8 +1270,19 @@ def correspond(ctx):
         corr.hit(f"{stream}_" + (out[0] if out[0] == "Ok" else "Err_" + out[1]))
         if stream == "atomic":
             corr.hit("wfn_protocol_" + str(case["pw"]))
+            corr.hit("native_policy_" + str(case["pnative"]) + ("_supplied" if case["native"] is not None else "_absent"))
+            corr.hit("stdout_protocol_" + str(case["pstdout"]))
+            corr.hit("driver_" + case["driver"] + "_" + out[0])
             if out[0] == "Ok" and out[1]["wfn"] is not None:
                 corr.hit("wfn_kept_nonempty")
+                if case["wfn"] is not None and dict(case["wfn"]).get("restricted") == ["bool", True]:
+                    corr.hit("wfn_kept_restricted")
+        elif stream == "traj":
+            corr.hit(f"traj_policy_{case['policy']}_len{min(len(case['ids']), 3)}")
+        elif stream == "basis":
+            corr.hit("basis_nbf_" + ("absent" if case["nbf"] is None else "supplied") + "_" + out[0])
+        elif stream == "props":
+            corr.hit("props_natom_" + ("none" if case["natom"] is None else "given") + "_" + out[0])
         if out[0] == "Ok":
             corr.nontriv([stream, case])
             if total == 2 or ctx.rng.random() < 0.001:
@@ -1208,6 +1322,21 @@ def correspond(ctx):
     # smallest failing case first within each stream (the replay file is written from the first one)
     import json as _json
     corr.failures.sort(key=lambda f: (f["stream"], not f.get("shrunk"), len(_json.dumps(f.get("case"), default=str))))
+    if nfail:
+        # state left behind by earlier calls also corrupts the single-case streams; a single case that does not fail in a fresh
+        # interpreter is represented by the (reproducible) history failure and dropped
+        drop = set()
+        for f in corr.failures:
+            st = f["stream"]
+            if st in drop or st == "oracle-history" or f.get("tag") is not None or st + "!" in drop:
+                continue
+            got = histseq.fresh_run("c20", [{"stream": f["case"]["stream"], "case": f["case"]["input"]}])
+            drop.add(st if got == [] else st + "!")          # "!": reproduces on its own, keep the stream
+        dropped = [f for f in corr.failures if f["stream"] in drop and f.get("tag") is None]
+        if dropped:
+            corr.notes.append(f"{len(dropped)} single-case failure(s) of stream(s) {sorted(drop - {d for d in drop if d.endswith('!')})} "
+                              "do not fail in a fresh interpreter (state-dependent): represented by the history failure")
+            corr.failures = [f for f in corr.failures if f not in dropped]
     corr.exhaustive = False
     return corr
 
@@ -1215,9 +1344,10 @@ def correspond(ctx):
 def search(ctx, corr, reasons):
     """All cases were already judged by the oracle inside correspond; add the disagreeing cases (their oracle verdicts are
     already in corr.failures if any) and a fresh targeted sample with a different seed."""
-    found = []
     import random
     rng = random.Random(ctx.seed * 7919 + 20)
+    found = [] if any(f.get("stream") == "oracle-history" for f in corr.failures) else history_failures(rng, 300)
+    state_dependent = bool(found) or any(f.get("stream") == "oracle-history" for f in corr.failures)
     for _ in range(1500):
         stream = rng.choice(["atomic", "atomic", "props", "basis", "traj"])
         case = {"atomic": lambda: gen_atomic(rng, None, 0.3), "props": lambda: gen_props(rng), "basis": lambda: gen_basis(rng),
@@ -1229,9 +1359,22 @@ def search(ctx, corr, reasons):
         for what, tag in bad:
             found.append({"stream": "search-" + stream, "case": {"stream": stream, "input": case}, "what": what, "observed": out,
                           "tag": tag})
+    if state_dependent:
+        # single cases that do not fail in a fresh interpreter are represented by the history failure
+        from .. import histseq
+        keep, verdict = [], {}
+        for f in found:
+            st = f["stream"]
+            if st != "oracle-history" and f.get("tag") is None:
+                if st not in verdict:
+                    verdict[st] = histseq.fresh_run("c20", [{"stream": f["case"]["stream"], "case": f["case"]["input"]}]) != []
+                if not verdict[st]:
+                    continue
+            keep.append(f)
+        found = keep
     firsts, seen = [], set()
     for f in found:
-        if f.get("tag") is None and f["stream"] not in seen:
+        if f.get("tag") is None and f["stream"] not in seen and f["stream"] != "oracle-history":
             seen.add(f["stream"])
             try:
                 firsts.append(shrink_failure(f))
@@ -1264,32 +1407,38 @@ TECHNIQUE = ("Coq proof over Gallina models that interpret protocol/field tables
 DESIGN_REF = "DESIGN.md §6 C20"
 LEVEL_TEXT = (
     "Machine-checked (Coq 8.16.1) theorems about Model/Results.v + Model/Basis.v, which interpret protocol/field tables regenerated "
-    "from results.py / procedures.py / basis.py on every run (Gen/KeepLists.v). For EVERY wavefunction dictionary, protocol string, "
-    "trajectory, array and basis set: C20_wfn_kept_exactly (result = exactly {restricted, basis} + documented pointers present + "
-    "their targets, or everything minus *_b when restricted under `all`; every kept payload is the supplied one; no *_b key survives a "
-    "restricted wavefunction), C20_wfn_dropped_only_by_none, C20_wfn_protocol_idempotent, "
-    "C20_stdout_native_protocols (spec + idempotence), C20_trajectory_spec (any length, empty/singleton explicit), "
-    "C20_trajectory_idempotent_total (no IndexError), C20_shapes_accepted_iff_size_fits (numpy reshape incl. one unknown dimension), "
-    "C20_shapes_flat_shaped_idempotent, C20_return_result_by_driver (gradient 3|size; hessian size = n*n via Z.sqrt), "
-    "C20_property_arrays (nat x 3, 3nat x 3nat, 3, 3x3 per field name), C20_wfn_validation_idempotent (re-validating an accepted "
-    "WavefunctionProperties dictionary returns it unchanged: reshape + pointer check over all generated fields), C20_nbf_spec / C20_nbf_count_formulas / "
-    "C20_basis_revalidation (count = sum over atoms and shells of 2L+1 | (L+1)(L+2)/2; accepted iff nbf absent or equal), "
-    "C20_keep_lists_are_documented (generated tables = tables written by hand from the documentation). Three statements of the "
-    "C20_wfn_fails_closed (filter and filter+validation refuse only with a validation error; success iff every selected pointer "
-    "has its target), C20_declared_shapes_enforced (every declared shape has a compatible reshape rule, finite over the generated "
-    "tables). Two statements of the property are false of the code and are proved in refuted form with witnesses replayed on the "
-    "implementation: C20_declared_shapes_enforced_refuted (localized_fock_a/_b only), C20_revalidation_identity_refuted "
-    "(native_files default under policy input). The models are tied to the code by the "
-    "fail-closed translator and by exact differential execution over the full product of protocols x drivers x payload subsets / "
-    "pointers x flat/shaped/list/wrong-sized arrays, WavefunctionProperties / AtomicResultProperties directly, trajectories of "
-    "length 0..7 under every policy, random basis sets (fused/general contractions, nbf right/wrong/absent), with the property "
-    "oracle (hand-written documentation mirror) and Model(**obj.dict()) re-validation evaluated on every accepted object.")
+    "from results.py / procedures.py / basis.py on every run (Gen/KeepLists.v). For EVERY wavefunction dictionary, protocol setting "
+    "(supplied or default), trajectory, array and basis set. Retention: C20_wfn_kept_exactly (filter: result = exactly {restricted, "
+    "basis} + documented pointers present + their targets, or everything minus *_b when restricted under `all`; payloads unchanged), "
+    "C20_wfn_dropped_only_by_none, C20_wfn_fails_closed, C20_atomic_wfn_kept_exactly (the same through the PUBLIC constructor: protocol "
+    "filter composed with the field validators), C20_atomic_result_is_its_stages (AtomicResult accepted iff protocols valid and the "
+    "four governed fields pass; error classes), C20_atomic_other_fields, C20_stdout_native_protocols, C20_trajectory_spec, "
+    "C20_keep_lists_are_documented (generated tables = documentation). Shapes: C20_shapes_accepted_iff_size_fits (numpy reshape incl. one "
+    "unknown dimension), C20_shapes_flat_shaped_idempotent, C20_return_result_by_driver, C20_property_arrays + "
+    "C20_properties_whole_object (nat x 3, 3nat x 3nat, 3, 3x3; whole object = field-wise), C20_wfn_arrays_shaped_or_rejected (every "
+    "array field of the generated WavefunctionProperties table: accepted => supplied elements in the rule's shape for the object's own "
+    "nbf, e.g. nbf x nbf iff size = nbf^2; misfit => validation error), C20_wfn_validation_keeps_payload, C20_declared_shapes_enforced. "
+    "Basis sets: C20_nbf_spec, C20_nbf_count_formulas, C20_basis_accepted_iff (accepted iff structurally valid, nbf absent or = count). "
+    "Re-validation is the identity: C20_wfn_protocol_idempotent, C20_wfn_validation_idempotent, C20_wfn_stage_idempotent, "
+    "C20_trajectory_idempotent_total (no IndexError), C20_basis_revalidation, C20_atomic_revalidation (whole AtomicResult). Two "
+    "statements of the property are false of the code and are proved in refuted form with witnesses replayed on the implementation: "
+    "C20_declared_shapes_enforced_refuted (localized_fock_a/_b only), C20_revalidation_identity_refuted (native_files default under "
+    "policy input). The models are tied to the code by the fail-closed translator and by exact differential execution over the full "
+    "product of protocols x drivers x payload subsets / pointers x flat/shaped/list/wrong-sized arrays, WavefunctionProperties / "
+    "AtomicResultProperties directly, trajectories of length 0..7 under every policy, random basis sets (fused/general contractions, "
+    "nbf right/wrong/absent), with the property oracle (hand-written documentation mirror) and Model(**obj.dict()) re-validation "
+    "evaluated on every accepted object.")
 LEVEL_NOTE = (
+    "Clause map: (1) shapes -> C20_shapes_accepted_iff_size_fits, C20_shapes_flat_shaped_idempotent, C20_property_arrays, "
+    "C20_properties_whole_object, C20_wfn_arrays_shaped_or_rejected, C20_return_result_by_driver, C20_atomic_result_is_its_stages [full; "
+    "localized_fock_a/_b refuted = known finding]; (2) nbf -> C20_nbf_spec, C20_nbf_count_formulas, C20_basis_accepted_iff [full, "
+    "distinct center keys]; (3) retention -> C20_wfn_kept_exactly, C20_atomic_wfn_kept_exactly, C20_atomic_other_fields, "
+    "C20_stdout_native_protocols, C20_trajectory_spec, C20_keep_lists_are_documented [full]; (4) kept unchanged -> "
+    "C20_wfn_validation_keeps_payload + the payload conjuncts of (3) [full]; (5) re-validation -> the idempotence theorems, "
+    "C20_atomic_revalidation [full outside the refuted native_files-default case = known finding]. Only correspondence/oracle: the "
+    "acceptance side of WavefunctionProperties as an iff, memory layouts (Fortran/strided/reversed return_result arrays), pydantic "
+    "plumbing, OptimizationResult fields other than `trajectory`. "
     "Trusted: Coq kernel + vm_compute; the translator harness/translate/keeplists.py (refuses on any statement of the validators it "
     "neither translates nor recognises); the hand-written models; pydantic.v1 plumbing, numpy asarray/reshape/shape assignment, "
-    "int(size**0.5) (modelled as Z.sqrt) are modelled, not verified; the harness. Not proved (covered only by the correspondence "
-    "and the re-validation oracle): idempotence of the COMPOSITION protocol filter ; WavefunctionProperties validation (each half is "
-    "proved idempotent separately) and of whole-AtomicResult re-validation outside the refuted native_files case. Out of the model: "
-    "memory layout (the models work on the logical element order; Fortran/strided/reversed return_result arrays are judged by the "
-    "oracle only), dict-valued return_result, non-str "
+    "int(size**0.5) (modelled as Z.sqrt) are modelled, not verified; the harness. Out of the model: dict-valued return_result, non-str "
     "pointer values. No axioms (all theorems closed under the global context).")
